@@ -464,6 +464,10 @@ def r4_retry(program, rep):
                 f, "core_count == self.count_cores_in_state('wait', "
                    "app_id)", True)
     cc = [d for d in fl.defs if d.var == "core_count"]
+    if len(cc) != 1 or not isinstance(cc[0].value, ast.Call):
+        raise AnalysisError("load_application: the number of cores "
+                            "requested is computed in a form that is not "
+                            "analysed")
     okn = okn and len(cc) == 1 and unparse(cc[0].value) == \
         "sum((len(cores) for ts in six.itervalues(application_map) for " \
         "cores in six.itervalues(ts)))"
@@ -500,6 +504,10 @@ def r4_retry(program, rep):
                     x.var == b_.var and x.mode != "param" and
                     not _inside(x.node.ast, w) for x in T.binds):
                 rebind, D3 = b_, t
+    if D3 is None:
+        raise AnalysisError("load_application: the rebuilding of the map "
+                            "of cores still to load was not found in the "
+                            "form analysed")
     oks = D3 is not None
     s1 = s2 = s3 = oka = okk = False
     if oks:
